@@ -357,30 +357,66 @@ def prop_theorems(vfile):
 LINT_RE = re.compile(r"\b(Admitted|admit|Axiom|Axioms|Parameter|Parameters|Conjecture|Conjectures|Admit\s+Obligations|bypass_check|type-in-type|impredicative-set)\b|Unset\s+(Guard|Positivity|Universe)\s+Checking")
 
 
-def coq_lint():
-    """forbidden vernacular anywhere in coq/ (comments stripped)"""
-    hits = []
-    for dp, dn, fn in os.walk(COQ):
-        for f in fn:
-            if not f.endswith(".v"):
+def coq_closure(vrel):
+    """the .v files of coq/ that [vrel] transitively requires (itself included)"""
+    seen, todo = set(), [vrel]
+    while todo:
+        f = todo.pop()
+        if f in seen:
+            continue
+        seen.add(f)
+        try:
+            with open(os.path.join(COQ, f)) as fh:
+                txt = re.sub(r"\(\*.*?\*\)", " ", fh.read(), flags=re.S)
+        except OSError:
+            continue
+        for sent in re.split(r"\.\s", txt):
+            toks = sent.split()
+            if "Require" not in toks[:4]:
                 continue
-            p = os.path.join(dp, f)
+            from_vv = len(toks) > 2 and toks[0] == "From" and toks[1] == "VV"
+            k = toks.index("Require") + 1
+            while k < len(toks) and toks[k] in ("Import", "Export"):
+                k += 1
+            for mod in toks[k:]:
+                if mod.startswith("VV."):
+                    mod = mod[3:]
+                elif not from_vv:
+                    continue
+                cand = mod.replace(".", "/") + ".v"
+                if os.path.exists(os.path.join(COQ, cand)):
+                    todo.append(cand)
+    return sorted(seen)
+
+
+def coq_lint(files=None):
+    """forbidden vernacular in the given files of coq/ (default: all of them);
+    comments are blanked first"""
+    hits = []
+    if files is None:
+        files = []
+        for dp, dn, fn in os.walk(COQ):
+            for f in fn:
+                if f.endswith(".v"):
+                    files.append(os.path.relpath(os.path.join(dp, f), COQ))
+    for rel in sorted(files):
+        p = os.path.join(COQ, rel)
+        try:
             with open(p) as fh:
                 txt = fh.read()
-            txt = re.sub(r"\(\*.*?\*\)", lambda m: re.sub(r"[^\n]", " ", m.group(0)), txt, flags=re.S)
-            for i, l in enumerate(txt.splitlines(), 1):
-                if LINT_RE.search(l):
-                    hits.append("%s:%d: %s" % (os.path.relpath(p, COQ), i, l.strip()[:100]))
-    # Variable/Hypothesis outside a Section
-            depth = 0
-            for i, l in enumerate(txt.splitlines(), 1):
-                if re.match(r"\s*Section\s+\w+", l):
-                    depth += 1
-                elif re.match(r"\s*End\s+\w+", l) and depth > 0:
-                    depth -= 1
-                elif depth == 0 and re.match(r"\s*(Variable|Variables|Hypothesis|Hypotheses|Context)\b", l):
-                    # Module-level End also decrements; tolerate by only flagging at depth 0
-                    hits.append("%s:%d: %s outside a section" % (os.path.relpath(p, COQ), i, l.strip()[:60]))
+        except OSError:
+            continue
+        txt = re.sub(r"\(\*.*?\*\)", lambda m: re.sub(r"[^\n]", " ", m.group(0)), txt, flags=re.S)
+        depth = 0
+        for i, l in enumerate(txt.splitlines(), 1):
+            if LINT_RE.search(l):
+                hits.append("%s:%d: %s" % (rel, i, l.strip()[:100]))
+            if re.match(r"\s*Section\s+\w+", l):
+                depth += 1
+            elif re.match(r"\s*End\s+\w+", l) and depth > 0:
+                depth -= 1
+            elif depth == 0 and re.match(r"\s*(Variable|Variables|Hypothesis|Hypotheses|Context)\b", l):
+                hits.append("%s:%d: %s outside a section" % (rel, i, l.strip()[:60]))
     return hits
 
 
@@ -442,7 +478,8 @@ def prove(prop_file, allowed_axioms, timeout=1500):
         else:
             res["failure"] = {"file": vrel, "line": 0, "lemma": t,
                               "message": "axioms outside the allow-list: %s" % sorted(ax - set(allowed_axioms))}
-    res["lint"] = coq_lint()
+    res["lint"] = coq_lint(coq_closure(vrel))
+    res["closure"] = coq_closure(vrel)
     if res["lint"]:
         res["failure"] = {"file": "coq/", "line": 0, "lemma": None, "message": "lint: " + "; ".join(res["lint"][:5])}
         res["discharged"] = []
@@ -502,7 +539,7 @@ def ocaml_model(name, timeout=900):
             for f in (ml, mli):
                 shutil.copy(f, d)
             with open(os.path.join(d, low + "_driver.ml"), "w") as out_f:
-                out_f.write("open %s_model\n" % name)
+                out_f.write("open %s_model\n" % low.capitalize())
                 out_f.write(open(zutil).read())
                 out_f.write(open(drv).read())
             rc, out = sh(["ocamlfind", "ocamlopt", "-O3", "-w", "-a", "-package", "str", "-linkpkg",
